@@ -58,8 +58,8 @@ CHECKS = {
             T("TestC01Store", (300, 4), (1000, 48)),
             T("TestC01HTTP", (100, 4), (700, 48)),
         ],
-        "required_classes": ["dag/template", "dag/free", "dag/merge>=3parents", "dag/merge>=3parents+shared-nonroot-ancestor", "dag/merge-parent-is-ancestor-of-another", "dag/nested-merge", "http/has-merge", "store/rewrite-at-same-version"],
-        "rule": "rapid-generated version DAGs (free growth: child / 2-4-parent merges over <=10 nodes; lineage templates: trunk + k in 2..4 lineages forking from trunk or other lineages with 0-2 own nodes, merged, optionally a child / second-level merge on top; every order of the last merge's parents enumerated). Resolver layer: for each DAG every placement of {none,value,tombstone} over the nodes (3^n exhaustive for n<=7, 500 sampled above), entry list permuted, GetBestKeyVersion and VersionedKeyValue at every node vs the frontier model (counter resolver_dag_placement_query_evaluations). Store layer: real Put/Delete/batch on Badger at arbitrary nodes, Get/Exists at every node after every write. HTTP layer: op lists over put/del/commit/newversion/branch/merge on a versioned and an unversioned keyvalue instance in two repos, reads of the touched key at every node of both repos after every write plus a final sweep. Non-trivial: DAG with >=3 nodes (resolver); key written at >=2 nodes incl. a delete (store); >=2 DAG-growing ops and >=1 delete (HTTP). Distinct = hash of the case value.",
+        "required_classes": ["dag/template", "dag/free", "dag/merge>=3parents", "dag/merge>=3parents+shared-nonroot-ancestor", "dag/merge-parent-is-ancestor-of-another", "dag/nested-merge", "http/has-merge", "store/rewrite-at-same-version", "store/range-delete-after-write"],
+        "rule": "rapid-generated version DAGs (free growth: child / 2-4-parent merges over <=10 nodes; lineage templates: trunk + k in 2..4 lineages forking from trunk or other lineages with 0-2 own nodes, merged, optionally a child / second-level merge on top; every order of the last merge's parents enumerated). Resolver layer: for each DAG every placement of {none,value,tombstone} over the nodes (3^n exhaustive for n<=7, 500 sampled above), entry list permuted, GetBestKeyVersion and VersionedKeyValue at every node vs the frontier model (counter resolver_dag_placement_query_evaluations). Store layer: real Put/Delete/batch and DeleteRange over the whole key class (model: a tombstone at that node for every key visible there, other keys untouched; a point delete instead where some key is in conflict at that node) on Badger at arbitrary nodes, Get/Exists at every node after every write. HTTP layer: op lists over put/del/commit/newversion/branch/merge on a versioned and an unversioned keyvalue instance in two repos, reads of the touched key at every node of both repos after every write plus a final sweep. Non-trivial: DAG with >=3 nodes (resolver); key written at >=2 nodes incl. a delete (store); >=2 DAG-growing ops and >=1 delete (HTTP). Distinct = hash of the case value.",
         "assumptions": ["merge parents are distinct committed nodes (what the merge endpoint is documented to take)",
                         "on a conflict (>=2 unsuperseded live values) both an error and 'absent' are accepted, a value is not"],
     },
@@ -122,8 +122,8 @@ CHECKS = {
         "tests": [
             T("TestC07History", (150, 4), (4000, 16)),
         ],
-        "required_classes": ["merge/open-parent", "merge/unknown-parent", "merge/repeated-parent", "merge/foreign-parent", "duplicate-caller-uuid", "tag-equal-to-existing-uuid", "branch-name-reuse", "repo-delete", "malformed-body"],
-        "rule": "rapid-generated request histories (<=40) over new repo / commit / newversion / branch / tag / merge / resolve / note / log / instance create / rename / delete / repo delete in up to 3 repos, each operand drawn from kinds (uuid: none|fresh|existing here|existing elsewhere|malformed|empty; address: full|prefix|root:branch|unknown|malformed; branch names fresh|existing|master|empty|odd; merge parents committed|open|unknown|repeated|foreign; bodies valid|missing fields|wrong types|empty|truncated). After every request the whole metadata (repos/info + identifier maps) is snapshotted: invariants checked, a rejected request must leave it identical, an accepted DAG-growing request must add exactly one node with the requested parents. Non-trivial: >=1 rejected request and >=2 accepted DAG-growing requests. Distinct = hash of the op list.",
+        "required_classes": ["merge/open-parent", "merge/unknown-parent", "merge/repeated-parent", "merge/foreign-parent", "duplicate-caller-uuid", "tag-equal-to-existing-uuid", "branch-name-reuse", "repo-delete", "malformed-body", "branch-named-like-a-tag", "tag-from-release-pool"],
+        "rule": "rapid-generated request histories (<=40) over new repo / commit / newversion / branch / tag / merge / resolve / note / log / instance create / rename / delete / repo delete in up to 3 repos, each operand drawn from kinds (uuid: none|fresh|existing here|existing elsewhere|malformed|empty; address: full|prefix|root:branch|unknown|malformed; branch names fresh|existing|master|empty|odd|tag-<release name>; tags fresh uuid|existing uuid|version string|empty|release name (branch and tag requests share a pool of two release names, so a tag meets a branch named after it and vice versa); merge parents committed|open|unknown|repeated|foreign; bodies valid|missing fields|wrong types|empty|truncated). After every request the whole metadata (repos/info + identifier maps) is snapshotted: invariants checked, a rejected request must leave it identical, an accepted DAG-growing request must add exactly one node with the requested parents. Non-trivial: >=1 rejected request and >=2 accepted DAG-growing requests. Distinct = hash of the op list.",
         "assumptions": ["status codes are not relied on beyond 2xx vs not-2xx", "linearity is asserted for branch names created through the branch endpoint (master can legitimately fork through merges, which are filed under the default branch)"],
     },
     "C08": {
